@@ -75,6 +75,9 @@ class SimEndpoint:
 
     verify: one of VERIF_CODES keys, or "peerclose" (FIN when the POST arrives), "peerreset",
             "http4xx" (HTTP 470 reply), "silent" (never answers).
+    vdelay: (optional attribute, default 0 = answer in the callback that delivered the request) number of
+            virtual ticks the accessory takes before its decisive pair-verify reaction (reply, FIN or RST);
+            a reaction scheduled after the controller closed the connection is lost, like on a real socket.
     handler(endpoint, method, target, body) -> None | bytes | list[(delay_ticks, bytes)]
             called for every decrypted request in the secure phase; returned HTTP bytes are
             sent (encrypted) after the delay (default 0 = in the same callback).
@@ -90,6 +93,7 @@ class SimEndpoint:
         self.recv_ctr = 0
         self.send_ctr = 0
         self.frame_size = frame_size
+        self.vdelay = 0
         self.requests = []        # (ticks, method, target, body) seen in the secure phase
         self.plain_requests = []
 
@@ -139,20 +143,10 @@ class SimEndpoint:
             if target == "/pair-verify":
                 v = self.verify
                 self.net.log("verify", self.tr.cid, v)
-                if v == "peerclose":
-                    self.tr.peer_fin()
-                elif v == "peerreset":
-                    self.tr.peer_reset()
-                elif v == "silent":
-                    pass
-                elif v == "http4xx":
-                    self.tr.peer_send(http_response(470, b"\x06\x01\x02\x07\x01\x02", "application/pairing+tlv8",
-                                                    reason="Connection Authorization Required"))
+                if self.vdelay > 0:
+                    self.net.loop.call_later(self.vdelay / 4096, self._verify_react, v)
                 else:
-                    tlv = b"\x06\x01\x02\x01\x01" + bytes([VERIFY_CODES[v]])
-                    if v == "ok":
-                        self.secure = True
-                    self.tr.peer_send(http_response(200, tlv, "application/pairing+tlv8"))
+                    self._verify_react(v)
             return
         self.requests.append((self.net.loop.ticks, method, target, body))
         self.net.log("request", self.tr.cid, method, target)
@@ -166,6 +160,23 @@ class SimEndpoint:
                 self.send_secure(data)
             else:
                 self.net.loop.call_later(delay / 4096, self.send_secure, data)
+
+    def _verify_react(self, v):
+        """The accessory's decisive reaction to the pair-verify request."""
+        if v == "peerclose":
+            self.tr.peer_fin()
+        elif v == "peerreset":
+            self.tr.peer_reset()
+        elif v == "silent":
+            pass
+        elif v == "http4xx":
+            self.tr.peer_send(http_response(470, b"\x06\x01\x02\x07\x01\x02", "application/pairing+tlv8",
+                                            reason="Connection Authorization Required"))
+        else:
+            tlv = b"\x06\x01\x02\x01\x01" + bytes([VERIFY_CODES[v]])
+            if v == "ok":
+                self.secure = True
+            self.tr.peer_send(http_response(200, tlv, "application/pairing+tlv8"))
 
     # ---- bytes to the controller
     def seal(self, data: bytes) -> bytes:
